@@ -531,6 +531,44 @@ func run(tier string, shard, nsh int, res *ev.Result) {
 				})
 			}
 		}
+		// the ORDER in which fields are added: every permutation of four overlapping / adjacent fields of one target, and of
+		// four fields that need two requests (a lower address added after a higher one, after a lower one again);
+		// 16-bit fields carrying an explicit byte order placed before and after default-order wide fields
+		jobs = append(jobs, func(lc *local) {
+			sets := [][]F{
+				{{Addr: 10, Type: 5}, {Addr: 8, Type: 7}, {Addr: 12, Type: 5}, {Addr: 11, Type: 9}},
+				{{Addr: 10, Type: 5}, {Addr: 300, Type: 5}, {Addr: 10, Type: 6}, {Addr: 250, Type: 7}},
+				{{Addr: 0, Type: 5}, {Addr: 120, Type: 9}, {Addr: 122, Type: 13, Len: 10}, {Addr: 5, Type: 7}},
+			}
+			for _, o := range []uint8{2, 5, 6, 9, 10} {
+				sets = append(sets, []F{{Addr: 100, Type: 5, Order: o}, {Addr: 101, Type: 7}, {Addr: 103, Type: 10}, {Addr: 107, Type: 11}},
+					[]F{{Addr: 100, Type: 7}, {Addr: 102, Type: 6, Order: o}, {Addr: 103, Type: 9}, {Addr: 107, Type: 13, Len: 5}})
+			}
+			var perms [][]int
+			var gen func(cur []int, used int)
+			gen = func(cur []int, used int) {
+				if len(cur) == 4 {
+					perms = append(perms, append([]int(nil), cur...))
+					return
+				}
+				for i := 0; i < 4; i++ {
+					if used&(1<<i) == 0 {
+						gen(append(cur, i), used|1<<i)
+					}
+				}
+			}
+			gen(nil, 0)
+			for _, set := range sets {
+				for _, p := range perms {
+					fs := make([]F, 4)
+					for i, j := range p {
+						fs[i] = set[j]
+						fs[i].Server, fs[i].Unit = "A", 1
+					}
+					eval(Case{FC: cf.fc, RTU: cf.rtu, Lenient: cf.lenient, Image: 1, Truncate: -1, Fields: fs}, res, lc)
+				}
+			}
+		})
 		// chains
 		jobs = append(jobs, func(lc *local) {
 			for _, st := range []int{1, 2, 3, 4, 62, 63, 124, 125, 126} {
